@@ -1,9 +1,9 @@
-(* stdin: "<id> <capacity> <mode A|I> <faults|-> <program>"  program: threads '|', ops ',' : E S J.
+(* stdin: "<id> <capacity> <mode A|I> <faults|-> <program>"  program: threads '|', ops ',' : E (execute(T&&)) C (execute(const T&)) S J.
    Prints every outcome the extracted EQModel admits (all schedules).  Thread ids 0..nt-1 are the client threads,
    nt.. are consumer threads created by accepted launches (at most one per E/S op). *)
 let parse_op (o : string) : op =
   match o.[0] with
-  | 'E' -> OExec | 'S' -> OSignal | 'J' -> OJoin
+  | 'E' -> OExec | 'C' -> OExecL | 'S' -> OSignal | 'J' -> OJoin
   | _ -> failwith ("bad op " ^ o)
 
 let show_res (r : res) : string =
